@@ -8,6 +8,7 @@ panic exactly where Rust's would (non-boundary / out of range).
 import EspadaVerif.Lemmas.TextDefs
 import EspadaVerif.Props.C08
 import EspadaVerif.Lemmas.RangeAux
+import EspadaVerif.Props.C09Regex
 
 namespace EspadaVerif.C09
 open EspadaVerif TextDefs TokenFacts RangeAux
@@ -61,8 +62,18 @@ end EspadaVerif.C09
 
 namespace EspadaVerif.C09
 
-/-- the seven pattern literals read from the source of `HandRangeToken::from_str` on this run are the literals the
-model's hand-written recognisers stand for (anchored, ASCII classes only, weight grammar `0(.d+)?|1(.0+)?`) -/
-theorem C09_regex_literals : Gen.tokenRegexSrc = expectedRegexSrc := by rfl
+/-- The `regex` crate is modelled, for the pattern subset the crate uses (anchored, ASCII literals and classes, groups,
+alternation, `?` `+` `*` `{n}`), by Brzozowski derivatives (`Model/Regex.lean`).  Each of the seven pattern literals read
+from the source of `HandRangeToken::from_str` ON THIS RUN parses in that subset, and the model's hand-written recogniser
+for that branch accepts exactly the byte strings the pattern matches.  (The literal is compared with the pattern the
+recogniser was written for by a proved-sound equivalence checker run in the kernel, not by text equality, so an
+equivalent rewrite of a pattern still proves and a language-changing one does not.) -/
+theorem C09_regex_semantics (i : Nat) (hi : i < 7) (s : Bytes) :
+    ∃ r, Rx.parse (Gen.tokenRegexCodes.getD i []) = some r ∧
+         (C09Regex.recognisers.getD i (fun _ => false)) s = Rx.matches r s :=
+  C09Regex.C09_regex_semantics i hi s
+
+/-- there are exactly seven literals -/
+theorem C09_regex_count : Gen.tokenRegexCodes.length = 7 := C09Regex.C09_regex_count
 
 end EspadaVerif.C09
